@@ -1475,6 +1475,19 @@ func TestVerifC40(t *testing.T) {
 		coq, desc, class := vC40RunScenario(sc)
 		out.Case(coq, desc, class, true)
 	}
+	// HLS level (zz_verif_c40hls_test.go): a real hls.Server attached to a real pathManager; goroutine dumps by
+	// function name, so one at a time and before the soak starts
+	nHls := n / 10
+	if nHls < 3 {
+		nHls = 3
+	}
+	for i := 0; i < nHls; i++ {
+		coq, desc, class := vC40HlsCaseRun(r)
+		out.Case(coq, desc, class, true)
+		if strings.HasPrefix(class, "STUCK:") {
+			break
+		}
+	}
 	// the soak runs do not use goroutine dumps and can run side by side
 	type res struct {
 		coq   string
